@@ -45,6 +45,7 @@ def build_inventory(repo: Repo) -> t.Dict[str, t.Any]:
         "classes": sorted(repo.classes),
         "nparams": {q: len(f.params) for q, f in repo.funcs.items()},
         "params": {q: list(f.params) for q, f in repo.funcs.items()},
+        "returns": {q: (unparse(f.node.returns) if f.node.returns is not None else "") for q, f in repo.funcs.items()},
         "funcs": sorted(repo.funcs),
         "consts": {m.name: sorted(m.consts) for m in repo.modules.values()},
         "class_consts": {c.qual: sorted(c.class_consts) for c in repo.classes.values()},
@@ -234,6 +235,8 @@ class Normalizer:
         for f in list(repo.funcs.values()):
             self._replace_node(f, self.canonical_syntax(f))
         for f in list(repo.funcs.values()):
+            self._replace_node(f, self.bool_updates(f))
+        for f in list(repo.funcs.values()):
             self._replace_node(f, self.inline_temps(f))
         for f in list(repo.funcs.values()):
             self._replace_node(f, self.devirtualise(f))
@@ -297,14 +300,28 @@ class Normalizer:
         new = {q: f for q, f in repo.funcs.items() if q not in self.inv_funcs and f.name.startswith("_") and not f.name.startswith("__")}
         cur_callers = _callers(repo)
         renames: t.Dict[str, str] = {}  # new qual -> old qual
-        for old in missing:
-            scope = old.rsplit(".", 1)[0]
-            cands = [q for q, f in new.items() if q.rsplit(".", 1)[0] == scope and len(f.params) == inv_np.get(old, -1) and q not in renames]
-            if len(cands) > 1:
-                want = set(inv_callers.get(old, []))
-                cands = [q for q in cands if set(cur_callers.get(q, [])) == want] or []
-            if len(cands) == 1:
-                renames[cands[0]] = old
+        inv_ret: t.Dict[str, str] = self.inventory.get("returns", {})
+        inv_par: t.Dict[str, t.List[str]] = self.inventory.get("params", {})
+        # candidates narrowed by successive discriminators (callers, return annotation, parameter names); a function
+        # is matched when one candidate is left, and matched candidates are taken away from the others (fixpoint)
+        progress = True
+        while progress:
+            progress = False
+            for old in missing:
+                if old in renames.values():
+                    continue
+                scope = old.rsplit(".", 1)[0]
+                cands = [q for q, f in new.items() if q.rsplit(".", 1)[0] == scope and len(f.params) == inv_np.get(old, -1) and q not in renames]
+                if len(cands) > 1:
+                    want = set(inv_callers.get(old, []))
+                    cands = [q for q in cands if set(cur_callers.get(q, [])) == want] or []
+                if len(cands) > 1 and old in inv_ret:
+                    cands = [q for q in cands if (unparse(new[q].node.returns) if new[q].node.returns is not None else "") == inv_ret[old]] or []
+                if len(cands) > 1 and old in inv_par:
+                    cands = [q for q in cands if list(new[q].params) == inv_par[old]] or []
+                if len(cands) == 1:
+                    renames[cands[0]] = old
+                    progress = True
         if not renames:
             return
         short = {n.rsplit(".", 1)[-1]: o.rsplit(".", 1)[-1] for n, o in renames.items()}
@@ -571,6 +588,13 @@ class Normalizer:
                 if isinstance(st, ast.Try):
                     for h in st.handlers:
                         h.body = flatten(h.body)
+                # empty branches (left behind by an inlined `if c: return`):  if c: pass else: B  ->  if not c: B ;  else: pass dropped
+                if isinstance(st, ast.If) and st.orelse and all(isinstance(x_, ast.Pass) for x_ in st.orelse):
+                    st.orelse = []
+                    hit[0] = True
+                if isinstance(st, ast.If) and st.orelse and all(isinstance(x_, ast.Pass) for x_ in st.body):
+                    st.test, st.body, st.orelse = negate(st.test), st.orelse, []
+                    hit[0] = True
                 if isinstance(st, ast.If) and st.orelse and not (len(st.orelse) == 1 and isinstance(st.orelse[0], ast.If) and not _terminates(st.body)):
                     size = lambda b: sum(1 for x_ in b for _ in ast.walk(x_))  # noqa: E731
                     if _terminates(st.body) and not (_terminates(st.orelse) and size(st.orelse) < size(st.body)):
@@ -1926,6 +1950,157 @@ class Normalizer:
         new.body = block(list(new.body))
         return new if hit[0] else None
 
+    # ------------------------------------------------------------------------------------------ N29
+    def bool_updates(self, f: Func) -> t.Optional[FuncNode]:
+        """T = T and E   ->   if not E: T = False          T = T or E   ->   if E: T = True       (also  E and T,  T &= E,  T |= E)
+        for a state T (attribute path or local) that only ever holds booleans and a boolean-valued, pure E: bool(X),
+        a comparison, `not X`, isinstance(..) - possibly through a local bound in the statement just before and read
+        nowhere else.  With both operands bool, `T and E` is T when T is False and E otherwise, i.e. T changes only
+        when E is false, and then to False."""
+        fn = f.node
+        repo = self.repo
+        hit = [False]
+        loads: t.Dict[str, int] = {}
+        stores: t.Dict[str, int] = {}
+        for n in _walk_no_scopes(fn):
+            if isinstance(n, ast.Name):
+                d = loads if isinstance(n.ctx, ast.Load) else stores
+                d[n.id] = d.get(n.id, 0) + 1
+        params = {a.arg for a in _params(fn)}
+
+        def boolish(e: ast.expr) -> bool:
+            if isinstance(e, ast.Constant):
+                return isinstance(e.value, bool)
+            if isinstance(e, ast.Compare):
+                return all(isinstance(o, (ast.Eq, ast.NotEq, ast.Lt, ast.LtE, ast.Gt, ast.GtE, ast.Is, ast.IsNot, ast.In, ast.NotIn)) for o in e.ops)
+            if isinstance(e, ast.UnaryOp) and isinstance(e.op, ast.Not):
+                return True
+            if isinstance(e, ast.Call) and isinstance(e.func, ast.Name) and e.func.id in ("bool", "isinstance") and e.func.id not in stores and e.func.id not in params:
+                return True
+            if isinstance(e, ast.BoolOp):
+                return all(boolish(v) for v in e.values)
+            return False
+
+        def test_of(e: ast.expr) -> ast.expr:
+            if isinstance(e, ast.Call) and isinstance(e.func, ast.Name) and e.func.id == "bool" and len(e.args) == 1 and not e.keywords:
+                return e.args[0]
+            return e
+
+        def state_is_bool(tg: ast.expr) -> bool:
+            if isinstance(tg, ast.Name):
+                if tg.id in params:
+                    return False
+                vals = [n.value for n in _walk_no_scopes(fn) if isinstance(n, ast.Assign) and any(isinstance(x, ast.Name) and x.id == tg.id for x in n.targets)]
+                return stores.get(tg.id, 0) == len(vals) + 1 and all(boolish(v) for v in vals)
+            if isinstance(tg, ast.Attribute) and isinstance(tg.value, ast.Name) and tg.value.id == "self" and f.cls is not None:
+                # every write of that attribute in the package: a bool, or an update of this very form
+                n_ = 0
+                for g in repo.funcs.values():
+                    for m in ast.walk(g.node):
+                        tgs: t.List[ast.expr] = []
+                        val: t.Optional[ast.expr] = None
+                        if isinstance(m, ast.Assign):
+                            tgs, val = list(m.targets), m.value
+                        elif isinstance(m, (ast.AugAssign, ast.AnnAssign)):
+                            tgs, val = [m.target], m.value
+                        for x in tgs:
+                            for y in ast.walk(x):
+                                if isinstance(y, ast.Attribute) and y.attr == tg.attr and isinstance(y.ctx, ast.Store):
+                                    n_ += 1
+                                    if y is not x or val is None:
+                                        return False
+                                    if isinstance(m, ast.AugAssign):
+                                        if not (isinstance(m.op, (ast.BitAnd, ast.BitOr)) and boolish(val)):
+                                            return False
+                                    elif not boolish(val):
+                                        if not isinstance(val, (ast.BoolOp, ast.BinOp)):
+                                            return False
+                                        others = [o for o in (val.values if isinstance(val, ast.BoolOp) else [val.left, val.right]) if unparse(o) != unparse(x)]
+                                        for o in others:
+                                            if isinstance(o, ast.Name):
+                                                ds = [q.value for q in ast.walk(g.node) if isinstance(q, ast.Assign) and any(isinstance(z, ast.Name) and z.id == o.id for z in q.targets)]
+                                                if len(ds) != 1 or not boolish(ds[0]):
+                                                    return False
+                                            elif not boolish(o):
+                                                return False
+                                        if len(others) != 1:
+                                            return False
+                        if isinstance(m, ast.Call) and unparse(m.func) in ("setattr", "object.__setattr__") and any(isinstance(a, ast.Constant) and a.value == tg.attr for a in m.args):
+                            return False
+                return n_ > 0
+            return False
+
+        def split(s_: ast.stmt) -> t.Optional[t.Tuple[ast.expr, str, ast.expr]]:
+            """(T, 'and' | 'or', E) of an update statement."""
+            if isinstance(s_, ast.AugAssign) and isinstance(s_.op, (ast.BitAnd, ast.BitOr)) and _is_pure_path(s_.target):
+                return s_.target, "and" if isinstance(s_.op, ast.BitAnd) else "or", s_.value
+            if isinstance(s_, ast.Assign) and len(s_.targets) == 1 and _is_pure_path(s_.targets[0]):
+                tg, v = s_.targets[0], s_.value
+                ops: t.Optional[t.List[ast.expr]] = None
+                kind = ""
+                if isinstance(v, ast.BoolOp) and len(v.values) == 2:
+                    ops, kind = list(v.values), "and" if isinstance(v.op, ast.And) else "or"
+                elif isinstance(v, ast.BinOp) and isinstance(v.op, (ast.BitAnd, ast.BitOr)):
+                    ops, kind = [v.left, v.right], "and" if isinstance(v.op, ast.BitAnd) else "or"
+                if ops is None:
+                    return None
+                me = unparse(tg)
+                if unparse(ops[0]) == me and unparse(ops[1]) != me:
+                    return tg, kind, ops[1]
+                if unparse(ops[1]) == me and unparse(ops[0]) != me:
+                    return tg, kind, ops[0]
+            return None
+
+        def block(stmts: t.List[ast.stmt]) -> t.List[ast.stmt]:
+            out: t.List[ast.stmt] = []
+            for s_ in stmts:
+                if not isinstance(s_, (ast.FunctionDef, ast.AsyncFunctionDef, ast.ClassDef)):
+                    for fld in ("body", "orelse", "finalbody"):
+                        blk = getattr(s_, fld, None)
+                        if isinstance(blk, list) and blk and isinstance(blk[0], ast.stmt):
+                            setattr(s_, fld, block(blk))
+                    if isinstance(s_, ast.Try):
+                        for h in s_.handlers:
+                            h.body = block(h.body)
+                # x = x or E  ->  if not x: x = E        x = x and E  ->  if x: x = E     (x a local name: the self-assignment
+                # on the other branch is a no-op; E is evaluated exactly when the original evaluates it)
+                if isinstance(s_, ast.Assign) and len(s_.targets) == 1 and isinstance(s_.targets[0], ast.Name) and isinstance(s_.value, ast.BoolOp) and len(s_.value.values) == 2 and isinstance(s_.value.values[0], ast.Name) and s_.value.values[0].id == s_.targets[0].id and not any(isinstance(x, ast.Name) and x.id == s_.targets[0].id for x in ast.walk(s_.value.values[1])) and not state_is_bool(s_.targets[0]):
+                    nm = s_.targets[0].id
+                    test: ast.expr = ast.Name(id=nm, ctx=ast.Load())
+                    if isinstance(s_.value.op, ast.Or):
+                        test = ast.UnaryOp(op=ast.Not(), operand=test)
+                    out.append(ast.copy_location(ast.If(test=test, body=[ast.copy_location(ast.Assign(targets=[ast.Name(id=nm, ctx=ast.Store())], value=s_.value.values[1], lineno=s_.lineno), s_)], orelse=[]), s_))
+                    hit[0] = True
+                    continue
+                sp = split(s_)
+                if sp is not None:
+                    tg, kind, e = sp
+                    drop_prev = False
+                    if isinstance(e, ast.Name) and out and isinstance(out[-1], ast.Assign) and len(out[-1].targets) == 1 and isinstance(out[-1].targets[0], ast.Name) and out[-1].targets[0].id == e.id and stores.get(e.id, 0) == 1 and loads.get(e.id, 0) == 1 and e.id not in params:
+                        e = out[-1].value
+                        drop_prev = True
+                    if boolish(e) and _is_pure(test_of(e)) and unparse(tg) not in unparse(e) and state_is_bool(tg):
+                        if drop_prev:
+                            out.pop()
+                        test = test_of(copy.deepcopy(e))
+                        new_if = ast.If(
+                            test=_negate(test) if kind == "and" else test,
+                            body=[ast.Assign(targets=[copy.deepcopy(tg)], value=ast.Constant(value=(kind == "or")), lineno=s_.lineno)],
+                            orelse=[],
+                        )
+                        out.append(ast.copy_location(new_if, s_))
+                        hit[0] = True
+                        continue
+                out.append(s_)
+            return out
+
+        new = copy.deepcopy(fn)
+        new.body = block(list(new.body))
+        if not hit[0]:
+            return None
+        ast.fix_missing_locations(new)
+        return new
+
     # ------------------------------------------------------------------------------------------ N26
     def expand_star_args(self, f: Func) -> t.Optional[FuncNode]:
         """g(a, *T, k=v)  ->  g(a, t1, t2, t3, k=v)   when T is a tuple / list display or a NamedTuple construction of the
@@ -1971,6 +2146,11 @@ class Normalizer:
                     given: t.Dict[str, ast.expr] = dict(zip(fields, e.args))
                     for k in e.keywords:
                         given[t.cast(str, k.arg)] = k.value
+                    for p_ in c.init_params():
+                        if p_.name not in given and p_.default is not None:
+                            okd, val = repo.try_fold(p_.default, c.mod)
+                            if okd and isinstance(val, (int, bytes, str, bool, type(None))):
+                                given[p_.name] = ast.Constant(value=val)
                     if list(given) and set(given) == set(fields):
                         items = [given[n_] for n_ in fields]
             if items is None:
@@ -1978,6 +2158,10 @@ class Normalizer:
             for c_ in items:
                 if not (_is_pure_path(c_) or isinstance(c_, ast.Constant) or (isinstance(c_, ast.UnaryOp) and isinstance(c_.operand, ast.Constant))):
                     return None
+                # the elements are read again at the call: their roots must still hold what they held at the construction
+                for x in ast.walk(c_):
+                    if isinstance(x, ast.Name) and stores.get(x.id, 0) > (0 if x.id in params else 1):
+                        return None
             return items
 
         class C(ast.NodeTransformer):
